@@ -252,6 +252,28 @@ theorem fold_is_c03_fold (c : Chain) (h : ChainOk c) :
     (utxoOf C03Alg c).set = BV.C03.Spec.utxoOf (c.reverse.map toBlock) :=
   c03_fold_spec c h
 
+/-- For every workload and EVERY prefix of its commit list: every block of the
+persisted active chain was accepted by `A.ok` on the fold of its predecessors, and
+every index row marked valid is justified the same way (pruning off). -/
+theorem prefix_valid (A : UtxoAlg) (hA : A.Lawful) (cfg : Cfg) (hp : cfg.prune = none) (ops : List Op)
+    (nd0 : Node A) (h0 : recover cfg (Image.empty A) = .ok nd0) (k : Nat) :
+    VChain A (replay (Image.empty A) ((runOps cfg nd0 ops).log.take k)).best ∧
+    IV A (replay (Image.empty A) ((runOps cfg nd0 ops).log.take k)).rows :=
+  prefix_valid_aux hA cfg hp ops nd0 h0 k
+
+/-- The first clauses of the property in C03's own terms, no `Lawful` and no validity
+hypothesis: for every workload, every prefix k and any reopen configuration, the
+reopened node is on a previously-active tip, its unspent-output set is
+`BV.C03.Spec.utxoOf` of the C03 blocks of that tip's chain, and its index knows every
+block whose row was committed. -/
+theorem recovered_utxo_is_c03_fold (cfg cfg' : Cfg) (hp : cfg.prune = none) (ops : List Op)
+    (nd0 : Node C03Alg) (h0 : recover cfg (Image.empty C03Alg) = .ok nd0) (k : Nat) :
+    ∃ rn, recover cfg' (replay (Image.empty C03Alg) ((runOps cfg nd0 ops).log.take k)) = .ok rn ∧
+      rn.tip ∈ activeTips ((runOps cfg nd0 ops).log.take k) ∧
+      rn.utxo.set = BV.C03.Spec.utxoOf (rn.tip.reverse.map toBlock) ∧
+      (∀ n, n ∈ rowKeys ((runOps cfg nd0 ops).log.take k) → n ∈ keys rn.index) :=
+  recovered_is_c03_fold cfg cfg' hp ops nd0 h0 k
+
 /-- `prefix_recovers` on C03's definitions, WITHOUT the `Lawful` hypothesis. -/
 theorem prefix_recovers_c03 (cfg cfg' : Cfg) (hp : cfg.prune = none) (ops : List Op)
     (nd0 : Node C03Alg) (h0 : recover cfg (Image.empty C03Alg) = .ok nd0) (k : Nat) :
@@ -274,8 +296,8 @@ theorem crash_image_prefix (A : UtxoAlg) (evs : List (BV.C05.DEvent (Commit A)))
 
 /-- End to end across C03, C04 and C05: for every workload, every way ffldb's cache
 schedules the node's commits and every crash point between two I/O steps, reopening
-the crash image succeeds on a previously-active tip with utxo = C03's fold and an
-index that knows every committed row.  Hypotheses left: pruning off; and what C05's
+the crash image succeeds on a previously-active tip whose unspent-output set is
+`BV.C03.Spec.utxoOf` of its chain, with an index that knows every committed row.  Hypotheses left: pruning off; and what C05's
 durability model assumes — a goleveldb transaction commit is atomic and durable and
 synced block data is on disk. -/
 theorem crash_recovers_composed (cfg cfg' : Cfg) (hp : cfg.prune = none) (ops : List Op)
@@ -285,11 +307,12 @@ theorem crash_recovers_composed (cfg cfg' : Cfg) (hp : cfg.prune = none) (ops : 
     (d : BV.C05.DState (Image C03Alg) (Commit C03Alg))
     (hc : BV.C05.CrashAt apply (BV.C05.init (Image.empty C03Alg)) evs d) :
     ∃ rn, recover cfg' (BV.C05.crashImage d) = .ok rn ∧
-      RecoverOk C03Alg (activeTips ((runOps cfg nd0 ops).log.take d.nDisk))
-        (rowKeys ((runOps cfg nd0 ops).log.take d.nDisk)) ⟨rn.tip, rn.utxo, keys rn.index⟩ := by
+      rn.tip ∈ activeTips ((runOps cfg nd0 ops).log.take d.nDisk) ∧
+      rn.utxo.set = BV.C03.Spec.utxoOf (rn.tip.reverse.map toBlock) ∧
+      (∀ n, n ∈ rowKeys ((runOps cfg nd0 ops).log.take d.nDisk) → n ∈ keys rn.index) := by
   obtain ⟨_, himg⟩ := crash_image_is_prefix evs d hc
   rw [himg, hev]
-  exact prefix_recovers_c03 cfg cfg' hp ops nd0 h0 d.nDisk
+  exact recovered_is_c03_fold cfg cfg' hp ops nd0 h0 d.nDisk
 
 /-- The schedule hypothesis is satisfiable for every commit list (e.g. every commit on
 the flush path). -/
